@@ -509,7 +509,9 @@ impl<'a, 'c, 'd> G<'a, 'c, 'd> {
         let directives = self.directives("FIELD", true, !sub_root);
         let inner = def.ty.inner_name().to_string();
         let selection_set = if self.s.is_composite(&inner) { self.selection_set(&inner, depth + 1, nest + 1) } else { vec![] };
-        Field { alias: if key == def.name { None } else { Some(key) }, name: def.name.clone(), args, directives, selection_set }
+        // an alias may be spelled like the field name (`a: a`): it is still an alias in the document
+        let redundant_alias = key == def.name && self.c.bool(24);
+        Field { alias: if key == def.name && !redundant_alias { None } else { Some(key) }, name: def.name.clone(), args, directives, selection_set }
     }
 
     fn type_condition(&mut self, parent: &str) -> String {
